@@ -227,6 +227,27 @@ class Device:
         cpppo = self.cpppo
         obj = self.router
         try:
+            if r.get("via_client") and r["op"] in ("rf", "wf", "rt", "wt") and r["path"][0][0] == "s":
+                # the request as cpppo's own client builds it from a textual tag range and offset/elements arguments
+                # (client.read / client.write with send=False), then through the wire form like any other
+                from cpppo.server.enip import client as _client
+                name = r["path"][0][1]
+                idx = r["path"][1][1] if len(r["path"]) > 1 and r["path"][1][0] == "e" else None
+                text = name if idx is None else "%s[%d-%d]" % (name, idx, idx + max(r["n"], 1) - 1)
+                off = r.get("off") if r["op"] in ("rf", "wf") else None
+                if r["op"] in ("rf", "rt"):
+                    req = _client.client.read(None, text, elements=r["n"], offset=off, send=False)
+                else:
+                    req = _client.client.write(None, text, data=[pyval(v) for v in r["vals"]], elements=r["n"], offset=off,
+                                               tag_type=r["ty"], send=False)
+                encoded = obj.produce(req)
+                data = cpppo.dotdict()
+                source = cpppo.chainable(encoded)
+                with obj.parser as machine:
+                    for _m, _s in machine.run(source=source, data=data):
+                        pass
+                obj.request(data)
+                return hexs(data.input)
             if r.get("direct"):
                 # the in-process API: a request mapping handed straight to the object (no wire form in between)
                 data = req_dotdict(r)
